@@ -1,4 +1,5 @@
 import QcoVerif.Model.Builder
+import QcoVerif.Generated.CopyTable
 /-
   C05 — copies are faithful and independent.
 
@@ -148,6 +149,42 @@ theorem lookup_get_set (lk : Lookup) (k : EqKey) (v : Nat) : (Lookup.set lk k v)
         simp only [List.any_cons, hp', Bool.false_or, h', Bool.false_eq_true, if_false, List.cons_append,
           List.find?_cons] at ih ⊢
         exact ih
+
+/-! ### the model's copy IS what the source text of the `copy()` methods says (regenerated on every run)
+
+`Gen.copySources` is the abstract that `tools/extract_tables.py` reads with `ast` from the source of every `copy()` method
+of the live code: constructed class, and which constructor arguments are passed on from the same field of `self`.
+`Cls.copyAbstract` computes the same abstract from the MODEL's copy by copying a probe operation all of whose fields are
+non-default.  The theorems below are re-checked by `lake build` against the regenerated table: an edit of a `copy()`
+method that constructs another class or drops / adds a field breaks them. -/
+
+/-- a probe operation of class `c` with every field set to a non-default value. -/
+def probeOp (c : Cls) : Op :=
+  { cls := c, qs := [7, 9], chan := .fl, dur := .fixed 123, link := 4, tag := 5, reg := 3,
+    ints := [some 1, none, some 3, some 4, some 5] }
+
+/-- the abstract of the model's per-class copy, in the vocabulary of `Gen.CopySrc`. -/
+def Cls.copyAbstract (c : Cls) : Gen.CopySrc :=
+  let cp := (probeOp c).copyFields
+  { cls := c.name, target := cp.cls.name, qubits := cp.qs == (probeOp c).qs, chan := cp.chan == (probeOp c).chan,
+    dur := cp.dur == (probeOp c).dur, link := c.copyKeepsLink, tag := cp.tag == (probeOp c).tag,
+    reg := cp.reg == (probeOp c).reg && c == .measure, ints := cp.ints == (probeOp c).ints }
+
+/-- **every `copy()` method of the source has exactly the abstract of the model's copy** (26 leaf classes). -/
+theorem copy_methods_match_source :
+    Gen.copySources = (Cls.all.filter (fun c => c != .comp)).map Cls.copyAbstract := by decide +kernel
+
+/-- both link classes keep the relation type and re-point through the lookup — as `World.copyLink` does
+    (`copyLink_rel`). -/
+theorem link_copies_match_source :
+    Gen.linkCopySources = [{ cls := "RelationLink", keepsType := true, usesLookup := true },
+                           { cls := "MultiRelationLink", keepsType := true, usesLookup := true }] := by decide +kernel
+
+/-- `CircuitCompositeOperation.copy` has the shape `World.copyObj` models: link copied through the lookup, count kept,
+    the nodes copied in listing order with the shared lookup, each copy recorded in the lookup and added (3 statements). -/
+theorem composite_copy_matches_source :
+    Gen.compCopySource = { link := true, rep := true, listingOrder := true, copiesWithLookup := true,
+                           recordsLookup := true, adds := true, statements := 3 } := by decide +kernel
 
 /-- non-vacuity: a Wait on the flux channel with a registry duration, and a measurement with a tag. -/
 example : Op.WellFormed { cls := .wait, qs := [1], chan := .fl, dur := .reg 2 } := by
